@@ -60,15 +60,13 @@ fn run_case(line: &str, budget: u64) -> String {
 }
 
 fn main() {
-  // deep synchronous recursion (retry over a failing cold source, re-entrant emits) must hit the
-  // operation budget, not the end of the stack
-  let t = std::thread::Builder::new().stack_size(4 << 30).spawn(real_main).expect("spawn");
-  let _ = t.join();
+  real_main();
 }
 
 fn real_main() {
   std::panic::set_hook(Box::new(|_| {}));
   let budget: u64 = std::env::var("RXH_BUDGET").ok().and_then(|s| s.parse().ok()).unwrap_or(200_000);
+  let hang_ms: u64 = std::env::var("RXH_HANG_MS").ok().and_then(|s| s.parse().ok()).unwrap_or(4_000);
   let stdin = std::io::stdin();
   let stdout = std::io::stdout();
   let mut out = stdout.lock();
@@ -77,11 +75,33 @@ fn real_main() {
       Ok(l) => l,
       Err(_) => break,
     };
-    let line = line.trim();
+    let line = line.trim().to_string();
     if line.is_empty() {
       continue;
     }
-    let r = run_case(line, budget);
+    // every case runs on a thread of its own: deep synchronous recursion (retry over a failing cold source, re-entrant
+    // emits) must hit the operation budget, not the end of the stack; and a case that BLOCKS on something the facade
+    // does not instrument (std::sync::Once, a channel, a real sleep) is given up after `hang_ms` and reported as
+    // `st=hang` - its thread is left behind, the next case starts on a fresh one
+    let (tx, rx) = std::sync::mpsc::channel::<String>();
+    let l2 = line.clone();
+    let t = std::thread::Builder::new().stack_size(4 << 30).spawn(move || {
+      let r = run_case(&l2, budget);
+      let _ = tx.send(r);
+    });
+    let r = match t {
+      Ok(h) => match rx.recv_timeout(std::time::Duration::from_millis(hang_ms)) {
+        Ok(r) => {
+          let _ = h.join();
+          r
+        }
+        Err(_) => {
+          let id = line.split_whitespace().nth(1).unwrap_or("?").trim_end_matches(')').to_string();
+          format!("{} |  ; S= L= O= st=hang", id)
+        }
+      },
+      Err(_) => run_case(&line, budget),
+    };
     let _ = writeln!(out, "{}", r);
     let _ = out.flush();
   }
